@@ -168,28 +168,31 @@ func c13(c *Ctx) {
 	for _, fn := range fns {
 		name := core.FuncName(fn)
 		n := 0
-		for i, ret := range core.SuccessReturns(fn) {
-			root := core.PathOf(ret.Results[0]).Root
-			if core.IsNilConst(ret.Results[0]) {
-				continue
-			}
-			if lc, _ := core.CallResult(core.Strip(root)); lc != nil && strings.Contains(core.CalleeName(lc.Common()), ".Load") {
-				r.OK("R-C13.2", fmt.Sprintf("%s success-return#%d", name, i), p.Pos(ret.Pos()), "payload was loaded from storage (exempt)")
+		for i, site := range tailReturnSites(fn) {
+			i, ret := i, site.Instr.(*ssa.Return)
+			site.In(func() {
+				root := core.PathOf(ret.Results[0]).Root
+				if core.IsNilConst(ret.Results[0]) {
+					return
+				}
+				if lc, _ := core.CallResult(core.Strip(root)); lc != nil && strings.Contains(core.CalleeName(lc.Common()), ".Load") {
+					r.OK("R-C13.2", fmt.Sprintf("%s success-return#%d", name, i), p.Pos(ret.Pos()), "payload was loaded from storage (exempt)")
+					n++
+					return
+				}
+				g := core.AnyOf("payload.Store succeeded or WithSkipStorage",
+					core.FlagSet("opts.WithSkipStorage", core.AnyRootField("WithSkipStorage")),
+					core.ErrNil("payload.Store", func(x *ssa.Call) bool {
+						cal := x.Common().StaticCallee()
+						if cal == nil || cal.Name() != "Store" || !core.InModule(cal) {
+							return false
+						}
+						return core.Strip(x.Call.Args[0]) == core.Strip(root)
+					}))
+				res := core.CutReach(p, fn, g, ret.Block())
+				r.CutOb(p, "R-C13.2", fmt.Sprintf("%s success-return#%d", name, i), p.Pos(ret.Pos()), res, g)
 				n++
-				continue
-			}
-			g := core.AnyOf("payload.Store succeeded or WithSkipStorage",
-				core.FlagSet("opts.WithSkipStorage", core.AnyRootField("WithSkipStorage")),
-				core.ErrNil("payload.Store", func(x *ssa.Call) bool {
-					cal := x.Common().StaticCallee()
-					if cal == nil || cal.Name() != "Store" || !core.InModule(cal) {
-						return false
-					}
-					return core.Strip(x.Call.Args[0]) == core.Strip(root)
-				}))
-			res := core.CutReach(p, fn, g, ret.Block())
-			r.CutOb(p, "R-C13.2", fmt.Sprintf("%s success-return#%d", name, i), p.Pos(ret.Pos()), res, g)
-			n++
+			})
 		}
 		if n == 0 {
 			r.Unk("R-C13.2", name+" success returns", p.Pos(fn.Pos()), "no success return with a payload found")
